@@ -69,6 +69,17 @@ class OtherUserError(Exception):
 USER_ERRORS = {"UserError": UserError, "OtherUserError": OtherUserError, "ValueError": ValueError, "KeyError": KeyError}
 
 
+class RaisingSerDes(SerDes):
+    """A batch-level serializer that cannot serialize the aggregated result (e.g. items of a custom type handled only by
+    an item serializer): the map/parallel operation itself then completes with FAIL."""
+
+    def serialize(self, value, ctx):
+        raise TypeError("aggregated result is not serializable")
+
+    def deserialize(self, data, ctx):
+        raise TypeError("aggregated result is not deserializable")
+
+
 class FragileSerDes(SerDes):
     """A user serializer with a schema check: faithful (tagged JSON) until the deployment changes at invocation
     `break_inv`, after which payloads written earlier can no longer be read back."""
@@ -573,6 +584,8 @@ class Interp:
                     pad = (st.get("pads") or [0] * (i + 1))[i] if st.get("pads") else 0
                     if pad:
                         return "b" * pad
+                    if st.get("unwrap") and len(res) == 1:
+                        return res[0]  # the branch function returns its only statement's value itself (e.g. a nested BatchResult)
                     return res
                 finally:
                     act[path] -= 1
@@ -585,6 +598,9 @@ class Interp:
             kw["max_concurrency"] = cfgd["max_concurrency"]
         if comp is not None:
             kw["completion_config"] = comp
+        if cfgd.get("serdes") == "raising":
+            kw["serdes"] = RaisingSerDes()
+            kw["item_serdes"] = JsonSerDes() if cfgd.get("item_serdes") == "json" else FragileSerDes(self.run, None) if cfgd.get("item_serdes") == "fragile" else None
         if cfgd.get("summary") == "none":
             kw["summary_generator"] = None
         elif cfgd.get("summary") == "custom":
